@@ -147,61 +147,64 @@ func runC16(c *Ctx) {
 		hasResp bool
 		err     string
 	}
-	results := make([][]result, clients)
-	var wg sync.WaitGroup
-	for cl := 0; cl < clients; cl++ {
-		wg.Add(1)
-		go func(cl int) {
-			defer wg.Done()
-			client := &http.Client{}
-			for _, rc := range cases[cl] {
-				res := result{rc: rc}
-				resp, err := client.Post(ts.URL, "application/json", bytes.NewReader(rc.body()))
-				if err != nil {
-					res.err = err.Error()
-				} else {
-					b, _ := io.ReadAll(resp.Body)
-					resp.Body.Close()
-					res.status = resp.StatusCode
-					var rv admissionv1.AdmissionReview
-					if json.Unmarshal(b, &rv) == nil && rv.Response != nil {
-						res.hasResp = true
-						res.uid = string(rv.Response.UID)
-						res.allowed = rv.Response.Allowed
+	uidMismatch, verdictMismatch := 0, 0
+	burst := func(phase string) {
+		results := make([][]result, clients)
+		var wg sync.WaitGroup
+		for cl := 0; cl < clients; cl++ {
+			wg.Add(1)
+			go func(cl int) {
+				defer wg.Done()
+				client := &http.Client{}
+				for _, rc := range cases[cl] {
+					res := result{rc: rc}
+					resp, err := client.Post(ts.URL, "application/json", bytes.NewReader(rc.body()))
+					if err != nil {
+						res.err = err.Error()
+					} else {
+						b, _ := io.ReadAll(resp.Body)
+						resp.Body.Close()
+						res.status = resp.StatusCode
+						var rv admissionv1.AdmissionReview
+						if json.Unmarshal(b, &rv) == nil && rv.Response != nil {
+							res.hasResp = true
+							res.uid = string(rv.Response.UID)
+							res.allowed = rv.Response.Allowed
+						}
+					}
+					results[cl] = append(results[cl], res)
+				}
+			}(cl)
+		}
+		wg.Wait()
+		for cl := range results {
+			for _, res := range results[cl] {
+				c.Eval(1)
+				c.Nontrivial(res.rc.uid)
+				c.Tag("ns." + res.rc.ns)
+				in := J{"uid": res.rc.uid, "namespace": res.rc.ns, "operation": res.rc.op, "user": res.rc.user, "concurrentClients": clients}
+				if res.err != "" || res.status != 200 || !res.hasResp {
+					c.Violate(Finding{Desc: fmt.Sprintf("well-formed review not answered with 200 + response: status=%d err=%s", res.status, res.err), Key: "wellformed-not-200", Input: in})
+					continue
+				}
+				if res.uid != res.rc.uid {
+					uidMismatch++
+					if uidMismatch <= 3 {
+						c.Violate(Finding{Desc: fmt.Sprintf("response.uid %q does not equal the request uid %q (%d clients in flight)", res.uid, res.rc.uid, clients), Key: "uid-mismatch", Input: in})
 					}
 				}
-				results[cl] = append(results[cl], res)
-			}
-		}(cl)
-	}
-	wg.Wait()
-	uidMismatch, verdictMismatch := 0, 0
-	for cl := range results {
-		for _, res := range results[cl] {
-			c.Eval(1)
-			c.Nontrivial(res.rc.uid)
-			c.Tag("ns." + res.rc.ns)
-			in := J{"uid": res.rc.uid, "namespace": res.rc.ns, "operation": res.rc.op, "user": res.rc.user, "concurrentClients": clients}
-			if res.err != "" || res.status != 200 || !res.hasResp {
-				c.Violate(Finding{Desc: fmt.Sprintf("well-formed review not answered with 200 + response: status=%d err=%s", res.status, res.err), Key: "wellformed-not-200", Input: in})
-				continue
-			}
-			if res.uid != res.rc.uid {
-				uidMismatch++
-				if uidMismatch <= 3 {
-					c.Violate(Finding{Desc: fmt.Sprintf("response.uid %q does not equal the request uid %q (%d clients in flight)", res.uid, res.rc.uid, clients), Key: "uid-mismatch", Input: in})
-				}
-			}
-			if res.allowed != res.rc.wantAllowed {
-				verdictMismatch++
-				if verdictMismatch <= 3 {
-					in["pod"] = res.rc.pod
-					in["old"] = res.rc.old
-					c.Violate(Finding{Desc: fmt.Sprintf("webhook verdict allowed=%v, admission library decision allowed=%v", res.allowed, res.rc.wantAllowed), Key: "verdict-mismatch", Input: in})
+				if res.allowed != res.rc.wantAllowed {
+					verdictMismatch++
+					if verdictMismatch <= 3 {
+						in["pod"] = res.rc.pod
+						in["old"] = res.rc.old
+						c.Violate(Finding{Desc: fmt.Sprintf("webhook verdict allowed=%v, admission library decision allowed=%v", res.allowed, res.rc.wantAllowed), Key: "verdict-mismatch", Input: in})
+					}
 				}
 			}
 		}
 	}
+	burst("first")
 	c.Hist["uidMismatches"] = uidMismatch
 	c.Hist["verdictMismatches"] = verdictMismatch
 	c.Sample(J{"review": json.RawMessage(cases[0][0].body())})
@@ -319,6 +322,10 @@ func runC16(c *Ctx) {
 			c.Violate(Finding{Desc: fmt.Sprintf("well-formed review of 3MiB-1 bytes (streamed=%v) not answered with 200, its own uid and the library's verdict", streamed), Key: "under-limit-rejected", Input: J{"bodyBytes": 3*1024*1024 - 1, "streamed": streamed}})
 		}
 	}
+	// and whatever the malformed and oversized requests left behind must not reach the reviews that follow them
+	burst("after the malformed and oversized requests")
+	c.Hist["uidMismatches"] = uidMismatch
+	c.Hist["verdictMismatches"] = verdictMismatch
 	// the handler is still alive afterwards
 	resp, err := http.Post(ts.URL, "application/json", bytes.NewReader(good))
 	if err != nil || resp.StatusCode != 200 {
